@@ -35,6 +35,8 @@ pub fn profile(name: &str) -> Profile {
     match name {
         // quiescent, below capacity, TTL-heavy: C03 C04 C05
         "cacheq" => base,
+        // the same on either flavour (drawn per case)
+        "cacheqb" => Profile { name: "cacheqb", flavour: 2, ..base },
         // quiescent with evictions, costers, validators, metrics: C09 C16 C17 C15
         "cachet" => Profile { name: "cachet", tight: true, validators: true, costers: true, ..base },
         // colliding keys: C18
@@ -244,7 +246,7 @@ pub fn suite_cache(rng: &mut Rng, cases: u64, t: &mut Trace, pname: &str) {
         t.case(id, p.name);
         let cfg = gen_config(rng, &p);
         let flags = crate::monitors::Flags {
-            exact_map: p.name == "cacheq",
+            exact_map: p.name == "cacheq" || p.name == "cacheqb",
             collisions: p.collisions,
             quiescent_profile: p.quiescent,
         };
